@@ -25,6 +25,15 @@ EXTENDS RA_Tree
 
 Bind(x, F(_)) == IF IsErr(x) THEN x ELSE F(x)
 
+\* TRUE: the code after the fix of the finding of that number; a companion configuration overrides
+\* the definition with FALSE and re-derives the counterexample from the pinned-commit rule
+FixF17 == TRUE
+FixF18 == TRUE
+FixF20 == TRUE
+FixF22 == TRUE
+FixF23 == TRUE
+FixF24 == TRUE
+
 Opts(pref, backtrack, transfer, require) ==
     [pref |-> pref, backtrack |-> backtrack, transfer |-> transfer, require |-> require]
 DefaultOpts == Opts("none", TRUE, FALSE, FALSE)
@@ -125,7 +134,10 @@ ApplyBinary(bop, l, r) ==
                   jop == JoinOp(bop.p, common)
               IN IF bop.res /\ ~(common \subseteq Cols(l) /\ common \subseteq Cols(r)) THEN Err("ColumnError")
                  ELSE IF ~bop.res /\ Has(bop, "mn") /\ ~(bop.mn \subseteq common) THEN Err("ColumnError")
-                 ELSE IF JoinIdentity(l) /\ AsTrivial(bop.p) = "T" THEN (IF KindOf(Eng(l)) = "sql" THEN Conform(r) ELSE r)
+                 \* (fix of finding F24) the SQL engine conformed - i.e. wrapped in one of its Select markers -
+                 \* the operand it hands back even when that operand lives in another engine
+                 ELSE IF JoinIdentity(l) /\ AsTrivial(bop.p) = "T"
+                      THEN (IF KindOf(Eng(l)) = "sql" /\ (~FixF24 \/ Eng(r) = Eng(l)) THEN Conform(r) ELSE r)
                  ELSE IF JoinIdentity(r) /\ AsTrivial(bop.p) = "T" THEN (IF KindOf(Eng(l)) = "sql" THEN Conform(l) ELSE l)
                  \* sql.Engine.append_binary conforms both operands first (an operand of another engine is
                  \* conformed structurally as well; the engine mismatch is only noticed by Join._finish_apply)
@@ -140,8 +152,7 @@ FinishApplyX(op, t) ==
     ELSE FinishApply(op, t)
 
 (* ---------------- commute incl. PartialJoin ---------------- *)
-\* TRUE: the code after the fix of finding F20 (a companion configuration overrides it)
-FixF20 == TRUE
+\* TRUE: the code after the fix of finding F20 / F24 (companion configurations override them)
 PJoinReq(op) == (ReqP(op.p) \ Cols(op.fixed)) \cup (IF op.res THEN op.common ELSE {})
 
 CommuteX(new, curNode) ==
@@ -175,7 +186,6 @@ BeginApply(op, t, pref) ==
 
 (* ---------------- the SQL Select machine ---------------- *)
 \* TRUE: the code after the fix of finding F22 (a companion configuration overrides it)
-FixF22 == TRUE
 Conform(t) ==
     CASE t.k = "sel" -> t
       [] t.k = "un"  -> Bind(Conform(t.t), LAMBDA s : SqlAppendUnary(t.op, s))
@@ -194,6 +204,9 @@ SqlAppendUnary(op, S) ==
       [] op.o = "dedup" ->
             IF S.dedup THEN S
             ELSE IF HasSlice(S) THEN ApplySkip(S, <<>>, NoProj, TRUE, 0, -1)
+            \* (fix of finding F23) the sort needs columns this select's projection drops: SELECT DISTINCT
+            \* cannot be ordered by them and a sub-query would not keep the order
+            ELSE IF FixF23 /\ ~(ReqOp(Sort(S.sort)) \subseteq Cols(S)) THEN Err("OrderLoss")
             ELSE ApplySkip(S.skip, S.sort, S.proj, TRUE, S.a, S.b)
       [] op.o = "proj" ->
             IF S.dedup
@@ -230,8 +243,9 @@ SqlAppendUnary(op, S) ==
                          ApplySkip(inner, merged, NoProj, FALSE, 0, -1))
                  ELSE ApplySkip(S.skip, merged, S.proj, S.dedup, S.a, S.b)
       [] op.o = "pjoin" ->
-            Bind(Conform(op.fixed), LAMBDA f : IF op.lhs THEN SqlAppendBinary(JoinOp(op.p, op.common), f, S)
-                                              ELSE SqlAppendBinary(JoinOp(op.p, op.common), S, f))
+            IF FixF24 /\ AsTrivial(op.p) = "T" /\ JoinIdentity(S) /\ Eng(op.fixed) # Eng(S) THEN op.fixed
+            ELSE Bind(Conform(op.fixed), LAMBDA f : IF op.lhs THEN SqlAppendBinary(JoinOp(op.p, op.common), f, S)
+                                                   ELSE SqlAppendBinary(JoinOp(op.p, op.common), S, f))
       [] op.o = "id" -> S
 
 \* _append_binary_to_select
@@ -270,8 +284,6 @@ TransferTo(t, dest) ==
 (* ---------------- iteration.Engine.backtrack_unary ---------------- *)
 \* TRUE: the code after the fix of finding F17 (a companion configuration
 \* overrides it with FALSE and re-derives the counterexample)
-FixF17 == TRUE
-FixF18 == TRUE
 \* [err] | [t |-> tree, done |-> BOOLEAN]
 Backtrack(op, t, pref) ==
     IF KindOf(Eng(t)) = "sql" THEN [t |-> t, done |-> FALSE]      \* base-class implementation
